@@ -216,8 +216,10 @@ fit_spline_1d(std::ranges::sized_range auto && dt_r, std::ranges::sized_range au
     rhs.head(N_coef).setZero();
     rhs.tail(N_eq) = b;
 
-    const Eigen::SimplicialLDLT<decltype(H), Eigen::Lower> ldlt(H);
-    return ldlt.solve(rhs).head(N_coef);
+    // the KKT matrix is indefinite: use a pivoting factorization
+    const Eigen::SparseMatrix<double> Hfull = H.selfadjointView<Eigen::Lower>();
+    const Eigen::SparseLU<Eigen::SparseMatrix<double>> lu(Hfull);
+    return lu.solve(rhs).head(N_coef);
   }
 }
 
